@@ -161,6 +161,21 @@ def step (st : St) (line : String) : St × String :=
         | some t, some cs, some m => (st, showRes triplesOut (matchSeq t cs m))
         | none, _, _ => (st, "no-table")
         | _, _, _ => bad
+      | "matchsim", [i, codes, mask, mat, thr] =>
+        match tbl i, parseNats codes, (if mask == "-" then some none else (parseBits mask).map some),
+              parseInts mat, thr.toInt? with
+        | some t, some cs, some m, some mat, some thr =>
+          (st, showRes triplesOut (matchSeqSim (scoreSim t.alph mat thr) t cs m))
+        | none, _, _, _, _ => (st, "no-table")
+        | _, _, _, _, _ => bad
+      | "matchtabsim", [i, j, mat, thr] =>
+        match tbl i, tbl j, parseInts mat, thr.toInt? with
+        | some t, some o, some mat, some thr =>
+          (st, showRes (fun l => showTuples (l.map fun (a, b, c, d) => [a, b, c, d]))
+            (matchTableSim (scoreSim t.alph mat thr) t o))
+        | none, _, _, _ => (st, "no-table")
+        | _, none, _, _ => (st, "no-table")
+        | _, _, _, _ => bad
       | "matchsel", [i, ps, ks] =>
         match tbl i, parseNats ps, parseNats ks with
         | some t, some ps, some ks => (st, showRes triplesOut (matchSelection t ps ks))
